@@ -107,7 +107,10 @@ def classify(tok, line, i):
             return "ipv6-seven-groups-after-compression"
     if i > 0 and line[i - 1:i] == b"\n":
         return "multi-line-write"
-    if i >= 2 and line[i - 2] in ENDC:
+    j = i - 1                                   # step back over one delimiter (one UTF-8 sequence)
+    while j > 0 and (line[j] & 0xC0) == 0x80:
+        j -= 1
+    if j >= 1 and line[j - 1] in ENDC:
         return "adjacent-address-delimiter-consumed"
     return "address-survives"
 
@@ -159,6 +162,11 @@ def complete_part(stream):
     return stream[:k + 1]
 
 
+def conc_stream(arg):
+    """all writes of all writers (each is whole lines), in some order"""
+    return b"".join(unhex(x[1:] or "-") for wr in arg.split(";") for x in wr.split(","))
+
+
 EXACT = {}      # case line -> expected exact output (single address, clean context)
 
 
@@ -189,11 +197,9 @@ def prop(line, impl, model):
             if lk:
                 return lk[1]
         else:
-            for wr in a[2].split(";"):
-                for x in wr.split(","):
-                    lk = leaks(unhex(x[1:] or "-"), out)
-                    if lk:
-                        return lk[1]
+            lk = leaks(conc_stream(a[2]), out)
+            if lk:
+                return lk[1]
     return None
 
 
@@ -219,12 +225,8 @@ def key_of(line, impl, model):
         stream = b"".join(unhex(x[1:] or "-") for x in a[2].split(","))
         lk = leaks(complete_part(stream), out or b"")
         return lk[0] if lk else "write"
-    for wr in a[2].split(";"):
-        for x in wr.split(","):
-            lk = leaks(unhex(x[1:] or "-"), out or b"")
-            if lk:
-                return lk[0]
-    return "conc"
+    lk = leaks(conc_stream(a[2]), out or b"")
+    return lk[0] if lk else "conc"
 
 
 # ------------------------------------------------------------------ generators
@@ -501,6 +503,9 @@ def regenerate_patterns(ctx=None):
 def inclusion_counterword(ctx, exe):
     """If the inclusion theorem does not hold for the generated pattern, fetch the checker's
     counter-word, concretise it and try it on the implementation."""
+    if ctx.proof and not ctx.proof["problems"]:
+        ctx.extra["inclusion_check"] = "proved (C07_spec_included compiled against the generated pattern)"
+        return
     res = vlib.run_model(["%s inclcex -" % AREA], timeout=600)[0]
     ctx.extra["inclusion_check"] = res[:200]
     if res == "included":
